@@ -326,9 +326,12 @@ def run_case(ck, desc):
                 if not ck.margin("a cell alone = the same cell inside a batch", e_, 1e-12):
                     k_ = int(np.argmax(np.abs(v_ - batch_) / sc_))
                     ck.violation("same-value-alone-and-in-a-batch", {"asked_as": label_, "p": float(pn[k_]), "alone": float(v_[k_]), "in_batch": float(batch_[k_]), "Rv_there": float(np.interp(pn[k_], P, rv_))}, desc)
-            e_ = float(np.max(np.abs(alone_ - own_) / sc_))
+            # (a difference of two stored masses 1 psi apart cancels 6 - 8 digits: its rounding error is a few eps of
+            #  the stored mass itself, whatever the size of the difference - thorough seeds 7 - 9 showed 8e-9 relative)
+            bound_ = 1e-9 * np.abs(own_) + 64 * np.finfo(float).eps * np.abs(storage(pn, son, phi, Sw, own, dens))
+            e_ = float(np.max(np.abs(alone_ - own_) / bound_)) * 1e-9
             if not ck.margin("on and beside rows: c = +-0.5 psi difference of documented storage", e_, 1e-9):
-                k_ = int(np.argmax(np.abs(alone_ - own_) / sc_))
+                k_ = int(np.argmax(np.abs(alone_ - own_) / bound_))
                 ck.violation("equals-finite-difference-of-documented-storage", {"p": float(pn[k_]), "asked": "alone, on or beside a row", "got": float(alone_[k_]), "want": float(own_[k_]), "rel": e_}, desc)
     # total mobility follows the documented sum
     kr_own = {k: (lambda s, k=k: np.interp(s, np.asarray(df_kr_sorted["So"]), np.asarray(df_kr_sorted[k]))) for k in ("kro", "krg", "krw")}
